@@ -1,4 +1,5 @@
 use crate::event::EventAction;
+use crate::sync::RwLock;
 use crate::{
     ActError, Error, NodeKind, ProcInfo, Result, ShareLock, Vars, Workflow, data,
     event::Action,
@@ -9,11 +10,7 @@ use crate::{
     utils::{self, consts},
 };
 use serde::Deserialize;
-use std::{
-    cell::RefCell,
-    fmt,
-    sync::{Arc, RwLock},
-};
+use std::{cell::RefCell, fmt, sync::Arc};
 use tracing::{debug, error, instrument};
 
 #[derive(Clone)]
